@@ -25,6 +25,10 @@ decreasing_by
     · exact h0
   exact Nat.div_lt_self hn h2
 
+/-- `_pack_remaining_length` with its guard: `ValueError` for lengths MQTT cannot express -/
+def remLenEncChecked (n : Nat) : Except Exc Bytes :=
+  if Gen.rlGuardCmp.evalNat n Gen.rlGuardMax then .error .valueError else .ok (remLenEnc n)
+
 /-- `VariableByteIntegers.encode`: range-checked (`ValueError`). -/
 def vbiEnc (n : Int) : Except Exc Bytes :=
   if Gen.vbiLo ≤ n ∧ n ≤ Gen.vbiHi then .ok (remLenEnc n.toNat) else .error .valueError
